@@ -37,6 +37,13 @@ func VerifPtrs(c *RuntimeContext) {
 	verifMu.Unlock()
 }
 
+// VerifRelease forgets the slot array of a context that goes back to the pool.
+func VerifRelease(c *RuntimeContext) {
+	verifMu.Lock()
+	delete(verifRanges, c)
+	verifMu.Unlock()
+}
+
 func VerifSlot(base uintptr, idx uint32) {
 	atomic.AddUint64(&VerifSlotChecks, 1)
 	addr := base + uintptr(idx)
